@@ -49,7 +49,7 @@ SlotsSeq(ss) == UNION {SlotsS(ss[i]) : i \in 1..Len(ss)}
 SlotsS(x) ==
   CASE x.k \in {"expr", "let", "const", "asg", "ret"} -> SlotsE(x.e)
     [] x.k = "wprop" -> SlotsE(x.o) \cup SlotsE(x.e)
-    [] x.k = "mcall" -> SlotsE(x.o) \cup SlotsArgs(x.args)
+    [] x.k \in {"mcall", "letc"} -> SlotsE(x.o) \cup SlotsArgs(x.args)
     [] x.k = "log" -> SlotsArgs(x.args)
     [] x.k = "block" -> SlotsSeq(x.b)
     [] x.k = "if" -> SlotsE(x.c) \cup SlotsS(x.a) \cup (IF x.b.k = "none" THEN {} ELSE SlotsS(x.b))
